@@ -76,6 +76,13 @@ def points(tier: str) -> List[Dict[str, Any]]:
             for timeout in (300, 3000):
                 pts.append({"cache": {k: "absent" for k in KINDS}, "timeout": timeout, "bundle": list(order),
                             "arrive": {k: (50 if k in order else "never") for k in KINDS}, "forced": None, "extra": False})
+    # the only cached address runs out while the lookup is still waiting for the SRV record that would make it usable
+    for life in (100, 240, 750, 1500):
+        for srv_at in (50, 230, 500, 1000, 2000):
+            for txt in ("absent", "fresh"):
+                pts.append({"cache": {"srv": "absent", "txt": txt, "a": "dying", "aaaa": "absent"}, "timeout": 3000,
+                            "dying_ms": life, "arrive": {"srv": srv_at, "aaaa": "never"} | ({"txt": "never"} if txt == "absent" else {}),
+                            "forced": None, "extra": False})
     # a superseded copy next to the current one: the cache holds a fresh record and, learnt *after* it, another record of the
     # same name and type with other rdata that has run out but is not purged yet (what a changed-and-changed-back TXT or SRV
     # leaves behind for up to ten seconds)
@@ -134,6 +141,12 @@ def run_point(p: Dict[str, Any], verbose: bool = False) -> Tuple[Optional[Dict[s
         for k in KINDS:
             s = st[k]
             if s == "absent":
+                continue
+            if s == "dying":
+                n += 1
+                rec = GOOD[k]
+                w.loop.call_at((t0 + p["dying_ms"] - rec[3] * 1000) / 1000, w.net.inject, host,
+                               wire.encode(n, 0x8400, (), [rec]), ("10.0.0.50", 5353))
                 continue
             if s == "fresh+exp":
                 n += 2
@@ -197,7 +210,7 @@ def run_point(p: Dict[str, Any], verbose: bool = False) -> Tuple[Optional[Dict[s
                 problems.append(f"bounded: returned {t_ret:.1f} ms after the call, timeout {timeout} ms")
         # ---- when did the lookup know SRV and an address?
         def avail(k: str) -> Optional[float]:
-            if st[k] in ("fresh", "stale", "fresh+exp"):
+            if st[k] in ("fresh", "stale", "fresh+exp", "dying"):
                 return 0.0
             off = arrive.get(k, "never")
             return None if off == "never" else float(off)
@@ -206,6 +219,12 @@ def run_point(p: Dict[str, Any], verbose: bool = False) -> Tuple[Optional[Dict[s
         addr_ts = [t for t in (avail("a"), avail("aaaa")) if t is not None]
         addr_t = min(addr_ts) if addr_ts else None
         known = None if srv_t is None or addr_t is None else max(srv_t, addr_t)
+        if p.get("dying_ms") is not None:
+            # the only address record runs out `dying_ms` into the lookup: it only counts if the SRV record is known by then
+            addr_t = 0.0
+            known = srv_t if (srv_t is not None and srv_t < p["dying_ms"]) else None
+            if srv_t is not None and abs(srv_t - p["dying_ms"]) < 1:
+                known = timeout  # same instant: either result
         if result is not None:
             if known is None or known > timeout:
                 if result:
@@ -247,7 +266,7 @@ def run_point(p: Dict[str, Any], verbose: bool = False) -> Tuple[Optional[Dict[s
                 problems.append(f"provenance: addresses {sorted(got_addrs)} are not all unexpired address records of the "
                                 f"host {sorted(good_addrs)}")
             if known == 0.0 and t_ret is not None and t_ret <= 0.01:
-                cached_now = {GOOD[k][4] for k in ("a", "aaaa") if st[k] in ("fresh", "stale", "fresh+exp")}
+                cached_now = {GOOD[k][4] for k in ("a", "aaaa") if st[k] in ("fresh", "stale", "fresh+exp", "dying")}
                 if p["extra"] and st["a"] in ("fresh", "stale"):
                     cached_now.add(A_EXTRA[4])
                 if got_addrs != cached_now:
